@@ -68,6 +68,7 @@ def build_next(fns):
             path.pc.append("(=> %s (and (bvuge %s %s) (bvule %s %s)))" % (found.t, b.t, bvconst(1, 64), b.t, ln))
         path.store["discr(%s)" % nm_dest] = bv("(ite %s %s %s)" % (found.t, bvconst(1, 64), bvconst(0, 64)), 64)
         path.store["%s#vSome.0" % nm_dest] = b
+        sym._keep = {"discr(%s)" % nm_dest, "%s#vSome.0" % nm_dest}  # bindings of this call's result: survive the store of the result itself
         path.store["__nm"] = V("tuple", items=[found, b, sl.items[0], sl.items[1]] if sl is not None else [found, b])
         return V("opaque", t="nm")
     models[r"Hasher::<.*>::next_match$|Hasher::next_match$"] = m_nm
